@@ -113,6 +113,10 @@ def check(case, M):
 
 def corpus():
     return [
+        {"family": "det", "build": {"src": "prims", "prims": [["f0", ["->", "bool", "bool"]], ["f1", ["->", "bool", "bool"]], ["c0", "bool"]], "forbidden": [],
+                                    "request": ["->", "bool", "bool"], "kind": "cfg", "max_depth": 4, "min_var": 1, "n_gram": 2},
+         "order": "built", "oseed": 848682430, "weights": "dyadic", "wseed": 554486384, "enum": {"kind": "bucket", "size": 5},
+         "filter": {"kind": "reject", "idx": [257263, 588494]}, "merges": []},
         {"family": "det", "build": {"src": "testdsl", "request": ["->", "int", "int"], "kind": "cfg", "max_depth": 3, "min_var": 1, "n_gram": 2},
          "order": "built", "oseed": 0, "weights": "uniform", "wseed": 0, "enum": {"kind": "heap", "threshold": "0"}, "filter": None, "merges": [[8, 7]]},
         {"family": "det", "build": {"src": "testdsl", "request": ["->", "int", "int"], "kind": "cfg", "max_depth": 3, "min_var": 1, "n_gram": 2},
